@@ -398,6 +398,12 @@ fn run_case(c: &Case, st: &mut Stats) -> Result<Option<(String, String)>, String
         for ct in &c.conts {
             apply_cont(&mut l, *ct)?;
         }
+        if l.clock_mismatch {
+            // the real handle_time_ticks saw a different elapsed time than requested (the thread was
+            // preempted between the hook setting last_tick and the function reading the clock): the
+            // execution is not the one that was asked for; the caller re-runs the case
+            return Err("clock mismatch".into());
+        }
         Ok((l, n_before_cont, vec![a, b, layer_after_settle as u16, down_after_settle as u16]))
     };
     let (live, n0, aux) = run(&old_text, false, st)?;
@@ -455,6 +461,9 @@ fn run_case(c: &Case, st: &mut Stats) -> Result<Option<(String, String)>, String
     fresh.idle_ms(3)?;
     for ct in &c.conts {
         apply_cont(&mut fresh, *ct)?;
+    }
+    if fresh.clock_mismatch {
+        return Err("clock mismatch".into());
     }
     if fresh.outs() != cont_out {
         return Ok(Some((
@@ -676,12 +685,17 @@ fn run_job(tier: Tier, idx: usize, st: &mut Stats) {
         let n = cases.len();
         for c in cases {
             crate::par::announce_value(&json!({"cfg": old_cfg(c.old, true), "history": c.describe()}));
-            // one retry on clock mismatch
+            // re-run on clock mismatch (rare: needs a preemption of > 0.8 ms inside one hook call)
             let mut r = run_case(&c, st);
-            if let Ok(None) = r {
-                // fine
-            } else if matches!(&r, Err(e) if e.contains("clock")) {
+            let mut tries = 0;
+            while matches!(&r, Err(e) if e.contains("clock mismatch")) && tries < 6 {
+                st.count("executions_with_clock_mismatch(re-run)", 1);
+                tries += 1;
                 r = run_case(&c, st);
+            }
+            if matches!(&r, Err(e) if e.contains("clock mismatch")) {
+                st.count("cases_skipped_after_7_clock_mismatches", 1);
+                continue;
             }
             match r {
                 Ok(None) => {}
